@@ -43,8 +43,25 @@ func genC04(t *rapid.T) C04Case {
 	cfg.BadIntentPct = 1
 	cfg.ForkPct = 28
 	cfg.Kinds = []string{"pay", "sf", "form", "fcop", "fcop", "attest", "arb"}
+	if kit.Chance(t, 15, "linear-shared") {
+		// linear family: no forks (so the history-dependent expiration order,
+		// known finding F-C02-1, cannot arise), shared v1 windows, some expiry
+		// blocks applied in an overridden order (WithExpiringContractOrder)
+		cfg.ForkPct, cfg.CorruptPct, cfg.BadIntentPct = 0, 0, 0
+		cfg.SharedPct, cfg.ReorderPct = 100, 60
+		cfg.Kinds = []string{"form", "form", "form", "pay", "fcop"}
+		cfg.MaxAllow = 500
+	}
 	tc := kit.GenTree(t, cfg)
+	if tc.SharedWindows {
+		tc.Net.Allow, tc.Net.ReqOff = 500, 10 // v1 regime throughout
+	}
 	sub := kit.GenSchedule(t, len(tc.Blocks), 24)
+	if tc.SharedWindows {
+		for i := range sub {
+			sub[i].Malleated, sub[i].Validated = false, false
+		}
+	}
 	c := C04Case{Tree: tc, Subs: rapid.IntRange(1, 3).Draw(t, "subs")}
 	for i := range sub {
 		st := sub[i]
@@ -256,6 +273,9 @@ func runC04(c C04Case, cs *kit.CaseStats) error {
 		return fmt.Errorf("INFRA: %v", err)
 	}
 	defer node.Close()
+	if len(tr.OrderOverride) > 0 {
+		cs.Class("expiration-order-overridden-by-option")
+	}
 	var subs []*shadow
 	for i := 0; i < max(1, c.Subs); i++ {
 		subs = append(subs, newShadow())
